@@ -103,6 +103,10 @@ class Oracle:
         if op["k"] == "exec" and out.get("sqlstate") is not None:
             self.flag("sqlstate-attr", f"sqlstate-attr/not-reset/{t}", {"op": op_brief(op), "outcome": out})
             return
+        if op["k"] == "episode":
+            if out.get("problems"):
+                self.flag("episode", f"episode/{op['name']}/{out['problems'][0]}", {"op": op_brief(op), "problems": out["problems"]}, prop=op.get("prop"))
+            return
         if op.get("effect_only"):
             return  # e.g. executemany: fakesnow documents that its response differs from the connector's; the effect is checked on the snapshot
         if pred.get("rows") is not None:
@@ -233,6 +237,8 @@ def predict(model: Model, op: dict[str, Any]) -> dict[str, Any]:
         return r
     if op["k"] == "restart":
         model.restart()
+        return {"ok": True, "rows": None, "rowcount": None}
+    if op["k"] == "episode":
         return {"ok": True, "rows": None, "rowcount": None}
     if op["k"] == "close":
         model.close(op["s"])
